@@ -20,6 +20,9 @@ func init() {
 		"google.golang.org/protobuf/proto.Size", "google.golang.org/protobuf/types/known",
 		"(*google.golang.org/protobuf/types/known",
 		"runtime.", "sync.", "(*sync.", "hash/", "(*hash/", "crypto/", "(*crypto/",
+		"(error).Error", "google.golang.org/grpc/status.", "google.golang.org/grpc/codes.",
+		"(github.com/sourcegraph/zoekt/grpc/protos/zoekt/webserver/v1.WebserverService_StreamSearchServer).Context",
+		"(google.golang.org/grpc.ServerStream).Context",
 	)
 }
 
